@@ -354,6 +354,37 @@ theorem rejected_line_observationally_noop (nil : α) (s : Session α) :
   refine ⟨rfl, fun hr => ⟨fun x => compact_preserves_lookup s hr x, rfl, ?_⟩⟩
   simp [runLine, compact, List.map_map, Function.comp_def]
 
+/-- **The flowing result stays typed.** Whatever happens to a line — parse error, compile error, a
+    code-less line of type definitions, or a line that ran and whose result has its static result
+    type — the value that flows into the next line is typed by the recorded `lastResultTy`. For the
+    three outcomes that run nothing, value and type are literally unchanged. -/
+theorem runLine_preserves_argTyped (nil : α) (hasTy : α → String → Prop) (s : Session α)
+    (h : ArgTyped hasTy s) (o : LineOutcome α)
+    (hran : ∀ eff, o = .ran eff → hasTy eff.result eff.resultTy) :
+    ArgTyped hasTy (runLine nil s o) := by
+  cases o with
+  | parseError => exact h
+  | compileError => exact h
+  | noCode b => exact h
+  | ran eff => exact hran eff rfl
+
+theorem code_less_line_keeps_result_and_type (nil : α) (s : Session α) (b : List (String × Nat)) :
+    nextArgument (runLine nil s (.noCode b)) = nextArgument s ∧
+    (runLine nil s (.noCode b)).lastResultTy = s.lastResultTy := ⟨rfl, rfl⟩
+
+/-- Witness for F-C11-1 (the rule before 7b757f2): after `5` the session holds `5 : 'int`; a
+    type-definition line makes the old rule record the type `[]` for the still-flowing `5`. -/
+theorem old_rule_forgets_result_type :
+    let hasTy : String → String → Prop := fun v t => (v = "5" ∧ t = "'int") ∨ (v = "nil" ∧ t = "[]")
+    let s : Session String := { bindings := [], locals := ["nil"], lastResult := "5", lastResultTy := "'int" }
+    ArgTyped hasTy s ∧ ¬ ArgTyped hasTy (runLineOld "nil" s (.noCode [])) ∧
+      ArgTyped hasTy (runLine "nil" s (.noCode [])) := by
+  refine ⟨Or.inl ⟨rfl, rfl⟩, ?_, Or.inl ⟨rfl, rfl⟩⟩
+  intro h
+  rcases h with ⟨_, h2⟩ | ⟨h1, _⟩
+  · exact absurd h2 (by decide)
+  · exact absurd h1 (by decide)
+
 /-- **The persistent top-level frame keeps its locals; every other frame exit clears them.** -/
 theorem persistent_frame_keeps_locals (base : Nat) (locals : List α) :
     localsAfterFrameExit true true base locals = locals ∧
